@@ -223,6 +223,48 @@ def sa(obj, name, value):
     it.assign(ast.Attribute(value=_Lit(obj), attr=name, ctx=ast.Store(), lineno=0), value, {})
 
 
+def _psd_quadratic(p):
+    """Is the polynomial p of total degree <= 2 non-negative everywhere?  Exact test: p = [x;1]^T Q [x;1] with Q positive
+    semidefinite (symmetric elimination over the rationals)."""
+    if any(sum(e for _v, e in m) > 2 for m in p.t):
+        return False
+    vs = sorted({v for m in p.t for v, _e in m})
+    idx = {v: i for i, v in enumerate(vs)}
+    n = len(vs) + 1
+    Q = [[Fraction(0)] * n for _ in range(n)]
+    for m, c in p.t.items():
+        c = Fraction(c)
+        if not m:
+            Q[n - 1][n - 1] += c
+        elif len(m) == 1 and m[0][1] == 1:
+            i = idx[m[0][0]]
+            Q[i][n - 1] += c / 2
+            Q[n - 1][i] += c / 2
+        elif len(m) == 1 and m[0][1] == 2:
+            Q[idx[m[0][0]]][idx[m[0][0]]] += c
+        elif len(m) == 2 and m[0][1] == 1 and m[1][1] == 1:
+            i, j = idx[m[0][0]], idx[m[1][0]]
+            Q[i][j] += c / 2
+            Q[j][i] += c / 2
+        else:
+            return False
+    # symmetric Gaussian elimination: every pivot >= 0, a zero pivot needs a zero row
+    for k in range(n):
+        piv = Q[k][k]
+        if piv < 0:
+            return False
+        if piv == 0:
+            if any(Q[k][j] != 0 for j in range(k + 1, n)):
+                return False
+            continue
+        for i in range(k + 1, n):
+            f = Q[i][k] / piv
+            if f != 0:
+                for j in range(k, n):
+                    Q[i][j] -= f * Q[k][j]
+    return True
+
+
 def _deco_leaf(d):
     if isinstance(d, ast.Call):
         return _deco_leaf(d.func)
@@ -478,6 +520,7 @@ class Interp:
         self.lossy_ok = False    # display formatting of numbers allowed (text is only printed / logged, never parsed again)
         self.class_inited = set()
         self.gen_stack = []          # generator objects whose body is currently executing (innermost last)
+        self.nonneg_keys = set()     # keys of polynomials known to be sums of squares by construction (x . x)
         self.live_generators = []
         self.ph_of = {}          # poly key -> placeholder token
         self.ph_val = {}         # placeholder token -> Poly
@@ -3155,7 +3198,11 @@ class Interp:
         """Is p >= 0 on this path for a reason that needs no decision?  (sum of squares; c - n^2 with 0 <= n <= sqrt(c) known)"""
         if all(c_ > 0 and all(e % 2 == 0 for _v, e in m) for m, c_ in p.t.items()):
             return True
+        if p.key() in self.nonneg_keys:
+            return True
         if self.known_positive(p):
+            return True
+        if _psd_quadratic(p):
             return True
         for i, (kind, arg) in poly.R.atom_arg.items():
             rest = p + arg
@@ -3237,7 +3284,10 @@ class Interp:
             return Arr([_dotp(r, b.data) for r in a.data], 1)
         if a.shape != b.shape:
             raise PathRaise("ValueError(dot shapes %s %s)" % (a.shape, b.shape), self.where(node))
-        return _dotp(a.data, b.data)
+        r = _dotp(a.data, b.data)
+        if isinstance(r, Poly) and (a is b or all(isinstance(x, Poly) and isinstance(y, Poly) and x == y for x, y in zip(a.data, b.data))):
+            self.nonneg_keys.add(r.key())        # x . x is a sum of squares
+        return r
 
     def npfunc(self, name, args, kw, n):
         if "out" in kw:
